@@ -111,7 +111,13 @@ def q_rules(P, E):
         r.error("Q3: no Condvar wait found")
     for (b, c) in waits:
         r.instance(("Q3", b.nid, c.path), True, "wait at bb%d" % c.bb)
-        if c.path.endswith("wait_while"):
+        if "timeout" in c.path:
+            r.violate(("Q3", b.nid, "timed wait"),
+                      "the worker parks with %s: the wait can return while the queue is still empty and abort is not set, "
+                      "so the following pop yields `no task` and the worker leaves its loop (or spins) without abort()"
+                      % c.path.split("::")[-1], body=b, line=c.line)
+            continue
+        if c.path.endswith("::wait_while"):
             cl = c.arg_closure(2)
             pb = P.bodies.get(cl) if cl else None
             if pb is None:
@@ -128,8 +134,14 @@ def q_rules(P, E):
             # the predicate must return false (stop waiting) on the aborted edge
             _check_predicate_polarity(P, r, pb)
         else:
-            if not b.in_cycle(c.bb):
-                r.violate(("Q3", b.nid, "bare wait outside a re-test loop"), "Condvar::wait without predicate loop (spurious/lost wake-ups)", body=b, line=c.line)
+            fwd = b.reachable_from(c.bb)
+            cyc = {x for x in fwd if c.bb in b.reachable_from(x)}
+            ab, _, _ = _field_acqs(P, b, "abort")
+            emp = [x for x in b.calls if x.bb in cyc and x.path in (DEQUE + "is_empty", DEQUE + "len")]
+            if not cyc or not (set(ab) & cyc) or not emp:
+                r.violate(("Q3", b.nid, "bare wait outside a re-test loop"),
+                          "Condvar::wait is not inside a loop that re-tests both the abort flag and queue emptiness "
+                          "(spurious / lost wake-ups)", body=b, line=c.line)
 
     # ---- Q4 / Q5 / Q8 / Q9 on scheduling
     b = sched
